@@ -1,8 +1,6 @@
 package main
 
 import (
-	"os"
-
 	"github.com/smart-core-os/sc-golang/verifharness/hx"
 )
 
@@ -34,5 +32,4 @@ func cmdList() {
 		}
 		out.Write(row)
 	}
-	_ = os.Stdout
 }
